@@ -102,7 +102,7 @@ def gen_check(rng):
     hasdef = rng.random() < 0.4
     return {'op': 'check', 'sub': gen_steps(rng) if rng.random() < 0.3 else [], 'seq': rng.choice(['list', 'tuple']),
             'types': types, 'inst': inst, 'vals': vals, 'oneof': oneof, 'validate': validate,
-            'hasdef': hasdef, 'def': G.rand_scalar(rng) if hasdef else NONE}
+            'hasdef': hasdef, 'def': gen_default(rng) if hasdef else NONE}
 
 
 def op_left(p):
